@@ -240,3 +240,7 @@ for n, tier in ((8, "quick"), (12, "thorough")):
 # c08_se_binary_inline (harness/src/c08_inline.rs: the real has_side_effects entered on a binary node, evaluate and the five helper
 # functions stubbed, the recursive call on leaf children real) is written but not registered: CBMC was still in symbolic execution
 # at 19 GB after 20 minutes (the dispatcher's arms are explored at both levels). The inline arms stay outside the claim.
+
+H("c12_sort_char_order", "c_scalar::c12_sort_char_order", ["C12"], ["rename_variables::rename_processor::sort_char"],
+  "all triples of characters of the identifier alphabet [A-Za-z0-9_]", mode="full", timeout_s=600, replay="sort_char_order",
+  assumptions=["sort_identifiers (the lexicographic lift) and the sort_by call are read, not executed"])
